@@ -194,7 +194,7 @@ theorem tail3_spec {S : Nat → Bool} (s : Sketch) {b sz l0 level rawBeg rawLim 
   by_cases ho : rawPop % 2 = 1
   · rw [if_pos ho]
     obtain ⟨ea, eh⟩ := hodd ho
-    simp only [M.bind_assoc]
+    simp only
     apply step_lv (by omega)
     rw [hg1, if_pos rfl]
     apply step_setLv _ (by omega)
@@ -221,7 +221,7 @@ theorem tail3_spec {S : Nat → Bool} (s : Sketch) {b sz l0 level rawBeg rawLim 
   · rw [if_neg ho]
     obtain ⟨ea, eh⟩ := hev ho
     subst ea
-    simp only [M.bind_assoc]
+    simp only
     apply step_lv (by omega)
     rw [hg1, if_pos rfl]
     apply step_setLv _ (by omega)
